@@ -475,6 +475,9 @@ func (c *Ctx) ruleDispatcherLoop(rule string) {
 		}
 		return ""
 	}
+	// the loop condition (or its parts) may sit in a helper predicate (canDispatch(), hasFreeSlot()): inline whatever
+	// the goroutine calls; the step itself stays one atomic event
+	sr.relevant = func(f *Func) bool { return f != R.Step }
 	sr.condExpr = func(fr *Frame, e ast.Expr, branch bool, ip *Interp, st *State) string {
 		if s := c.capSym(fr, e, branch); s != "" {
 			return s
